@@ -501,3 +501,17 @@ Section ProcessTimeoutsProofs.
     - split; [|split; assumption]. intros x Hx Hlt. apply H4; [exact Hx|]. unfold expiredb. apply Z.leb_gt. exact Hlt.
   Qed.
 End ProcessTimeoutsProofs.
+
+Lemma hint_example :
+  let now := TV 100 500000 in
+  let dl := [TV 100 400000; TV 101 0; TV 150 7] in
+  tv_ok now /\ Forall tv_ok dl /\ sorted_deadlines dl /\
+  timeout_int dl now (Some (TV 0 250000)) = Ok (HintBuf (TV 0 0)) /\
+  timeout_int (tl dl) now (Some (TV 0 250000)) = Ok HintMax /\
+  timeout_int (tl dl) now None = Ok (HintBuf (TV 0 500000)).
+Proof.
+  cbv zeta. split; [apply tv_ok_iff; reflexivity|].
+  split; [repeat constructor; apply tv_ok_iff; reflexivity|].
+  split; [repeat constructor|].
+  repeat split; vm_compute; reflexivity.
+Qed.
